@@ -117,7 +117,8 @@ class Gen:
     def include(self, out, flat, depth, my_dir):
         rng = self.rng
         self.nfile += 1
-        name = "c%d.inc" % self.nfile
+        # file names are taken as written (letter case included): mixed-case names, upper-case extensions
+        name = rng.choice(["c%d.inc", "c%d.inc", "Defs%d.inc", "M%dDEF.INC", "tn%dAdef.inc", "Cfg_%d.Inc"]) % self.nfile
         how = rng.choice(HOWS)
         if how == "incpath_from_child" and depth >= self.max_depth:
             how = "incpath_rel"
@@ -238,6 +239,11 @@ def same_name_trees(base):
             f3["%s/sub/leaf.inc" % m] = " .dw %d\n" % (100 * (i + 1))
             flat3 += " .dw %d\n .dw %d\n .dw %d\n" % (100 * (i + 1), 10 * (i + 1), i + 1)
         tree(main, f3, flat3)
+    # letter case: a name is found only as it is spelled
+    for real, asked in (("Defs.inc", "defs.inc"), ("defs.inc", "Defs.inc"), ("defs.inc", "DEFS.INC"), ("m8DEF.inc", "m8def.inc"), ("Sub/x.inc", "sub/x.inc"), ("sub/X.inc", "sub/x.inc")):
+        tree(['.include "%s"' % asked, " nop"], {real: " .dw 1\n"}, "", missing=asked.split("/")[-1])
+        tree(['.include "%s"' % real, " nop"], {real: " .dw 1\n"}, " .dw 1\n nop\n")
+    tree(['.include "Defs.inc"', '.include "defs.inc"'], {"Defs.inc": " .dw 1\n", "defs.inc": " .dw 2\n"}, " .dw 1\n .dw 2\n")
     # control: one file included several times is read every time (a .set variable shows it)
     tree([".set n = 0", '.include "inc/bump.inc"', '.include "inc/bump.inc"', '.include "inc/bump.inc"', " .dw n"],
          {"inc/bump.inc": ".set n = n + 1\n .dw n\n"}, ".set n = 0\n" + ".set n = n + 1\n .dw n\n" * 3 + " .dw n\n")
